@@ -24,6 +24,21 @@
 (* They must stay the same buffer; a buffer that has held a large line stays   *)
 (* large (capacity is kept by Reset).                                          *)
 (*                                                                             *)
+(* The writer is environment: Fault[p] says what w.Write does with the line of *)
+(* p's record: 0 takes it, 1 returns (0, err), 2 returns (n < len, err) - the  *)
+(* line is lost either way - , 3 panics; the panic leaves Handle and is        *)
+(* recovered by the caller (as net/http does per request).  Whatever the       *)
+(* writer does to one record, the handler tree must stay usable: the mutex is  *)
+(* released (DeferUnlock), the pooled item goes back, every call returns, and  *)
+(* every record whose Handle returns nil has its one line.  After a Write      *)
+(* ERROR the code's behaviour is StickyError = TRUE: the shared json.Encoder   *)
+(* remembers the error and later calls return it without writing ("stale").    *)
+(* That is allowed (a failing writer is outside the property's quantifier):    *)
+(* ReturnsWeak, LinesMatchReturns and StaleOnlyAfterError are what both the    *)
+(* sticky and a non-sticky implementation satisfy; the full Returns /          *)
+(* EveryRecordWritten hold for StickyError = FALSE and are refuted for TRUE    *)
+(* (documented side finding).                                                  *)
+(*                                                                             *)
 (* The first four BOOLEAN constants are TRUE for the real design (RebindOnLarge *)
 (* is FALSE); flipping one gives a plausible wrong implementation, and TLC     *)
 (* finds the violated invariant (the orchestrator runs those as expected       *)
@@ -37,7 +52,10 @@ CONSTANTS NGates,          \* NGates[p]: LogValuer gates in the record of proces
           PutAfterWrite,   \* Put deferred to the end of Handle (FALSE: Put right after rendering)
           WriteUnderLock,  \* the Write happens inside the critical section
           SingleWrite,     \* the line and its newline go out in one Write call
-          RebindOnLarge    \* reset() replaces a large buffer by a new one (the TextHandler keeps the old)
+          RebindOnLarge,   \* reset() replaces a large buffer by a new one (the TextHandler keeps the old)
+          Fault,           \* Fault[p]: 0 ok, 1 Write returns (0, err), 2 short write with err, 3 Write panics
+          DeferUnlock,     \* the mutex is released by a deferred call (also when Write panics)
+          StickyError      \* after a Write error the shared encoder fails every later Encode
 
 NP == Len(NGates)
 Procs == 1..NP
@@ -54,9 +72,11 @@ VARIABLES pc, buf, g, msg, enc, chunks,   \* per process
           arr, blen, large,               \* per buffer: backing array, length, has held a large line
           lock,                           \* 0 or the holder
           inWrite,                        \* processes inside w.Write
-          stream                          \* everything written to w, in order
+          stream,                         \* everything the writer accepted, in order
+          ret,                            \* per process: how Handle ended ("" running, "ok", "error", "stale", "panic")
+          encErr                          \* the shared encoder has a remembered error
 
-vars == <<pc, buf, g, msg, enc, chunks, free, created, hb, tb, arr, blen, large, lock, inWrite, stream>>
+vars == <<pc, buf, g, msg, enc, chunks, free, created, hb, tb, arr, blen, large, lock, inWrite, stream, ret, encErr>>
 
 Init ==
     /\ pc = [p \in Procs |-> "start"]
@@ -73,6 +93,8 @@ Init ==
     /\ lock = 0
     /\ inWrite = {}
     /\ stream = <<>>
+    /\ ret = [p \in Procs |-> ""]
+    /\ encErr = FALSE
 
 (* sync.Pool: Get returns any pooled item or makes a new one. *)
 PoolGet(p) ==
@@ -82,7 +104,7 @@ PoolGet(p) ==
          /\ free' = free \ {b}
          /\ created' = created \cup {b}
     /\ pc' = [pc EXCEPT ![p] = "got"]
-    /\ UNCHANGED <<g, msg, enc, chunks, hb, tb, arr, blen, large, lock, inWrite, stream>>
+    /\ UNCHANGED <<g, msg, enc, chunks, hb, tb, arr, blen, large, lock, inWrite, stream, ret, encErr>>
 
 (* reset(): truncate the buffer (capacity and backing array are kept). *)
 Reset(p) ==
@@ -94,14 +116,14 @@ Reset(p) ==
               /\ UNCHANGED hb
     /\ g' = [g EXCEPT ![p] = NGates[p]]
     /\ pc' = [pc EXCEPT ![p] = IF NGates[p] > 0 THEN "valuer" ELSE "torender"]
-    /\ UNCHANGED <<buf, msg, enc, chunks, free, created, tb, arr, large, lock, inWrite, stream>>
+    /\ UNCHANGED <<buf, msg, enc, chunks, free, created, tb, arr, large, lock, inWrite, stream, ret, encErr>>
 
 (* Leaving a LogValuer gate. *)
 Valuer(p) ==
     /\ pc[p] = "valuer"
     /\ g' = [g EXCEPT ![p] = @ - 1]
     /\ pc' = [pc EXCEPT ![p] = IF g[p] = 1 THEN "torender" ELSE "valuer"]
-    /\ UNCHANGED <<buf, msg, enc, chunks, free, created, hb, tb, arr, blen, large, lock, inWrite, stream>>
+    /\ UNCHANGED <<buf, msg, enc, chunks, free, created, hb, tb, arr, blen, large, lock, inWrite, stream, ret, encErr>>
 
 (* bytes.Buffer.Write at the current length: overwrites what the backing array *)
 (* held there and extends it when needed.                                      *)
@@ -129,44 +151,63 @@ Render(p) ==
                     /\ IF PutAfterWrite
                          THEN UNCHANGED <<free, buf>>
                          ELSE free' = free \cup {i} /\ buf' = [buf EXCEPT ![p] = 0]
-    /\ UNCHANGED <<g, enc, chunks, created, hb, tb, lock, inWrite, stream>>
+    /\ UNCHANGED <<g, enc, chunks, created, hb, tb, lock, inWrite, stream, ret, encErr>>
 
 Lock(p) ==
     /\ pc[p] = "rendered"
     /\ lock = 0
     /\ lock' = p
     /\ pc' = [pc EXCEPT ![p] = "locked"]
-    /\ UNCHANGED <<buf, g, msg, enc, chunks, free, created, hb, tb, arr, blen, large, inWrite, stream>>
+    /\ UNCHANGED <<buf, g, msg, enc, chunks, free, created, hb, tb, arr, blen, large, inWrite, stream, ret, encErr>>
 
 (* The pooled bytes are read here, not when msg was cut. *)
 Encode(p) ==
     /\ pc[p] = "locked"
-    /\ LET e == SubSeq(arr[msg[p].b], 1, msg[p].n)
-       IN /\ enc' = [enc EXCEPT ![p] = e]
-          /\ chunks' = [chunks EXCEPT ![p] = IF SingleWrite THEN << e \o <<NL>> >> ELSE << e, <<NL>> >>]
-    /\ lock' = IF WriteUnderLock THEN lock ELSE 0
-    /\ pc' = [pc EXCEPT ![p] = "encoded"]
-    /\ UNCHANGED <<buf, g, msg, free, created, hb, tb, arr, blen, large, inWrite, stream>>
+    /\ IF StickyError /\ encErr
+         THEN \* json.Encoder: "if enc.err != nil { return enc.err }" - nothing is written
+              /\ ret' = [ret EXCEPT ![p] = "stale"]
+              /\ pc' = [pc EXCEPT ![p] = "written"]
+              /\ UNCHANGED <<enc, chunks, lock>>
+         ELSE /\ LET e == SubSeq(arr[msg[p].b], 1, msg[p].n)
+                 IN /\ enc' = [enc EXCEPT ![p] = e]
+                    /\ chunks' = [chunks EXCEPT ![p] = IF SingleWrite THEN << e \o <<NL>> >> ELSE << e, <<NL>> >>]
+              /\ lock' = IF WriteUnderLock THEN lock ELSE 0
+              /\ pc' = [pc EXCEPT ![p] = "encoded"]
+              /\ UNCHANGED ret
+    /\ UNCHANGED <<buf, g, msg, free, created, hb, tb, arr, blen, large, inWrite, stream, encErr>>
 
 WriteBegin(p) ==
     /\ pc[p] = "encoded"
     /\ inWrite' = inWrite \cup {p}
     /\ pc' = [pc EXCEPT ![p] = "writing"]
-    /\ UNCHANGED <<buf, g, msg, enc, chunks, free, created, hb, tb, arr, blen, large, lock, stream>>
+    /\ UNCHANGED <<buf, g, msg, enc, chunks, free, created, hb, tb, arr, blen, large, lock, stream, ret, encErr>>
 
+(* The end of a Write call: the writer takes the bytes, fails, or panics. *)
 WriteEnd(p) ==
     /\ pc[p] = "writing"
-    /\ stream' = stream \o Head(chunks[p])
-    /\ chunks' = [chunks EXCEPT ![p] = Tail(@)]
     /\ inWrite' = inWrite \ {p}
-    /\ pc' = [pc EXCEPT ![p] = IF Len(chunks[p]) > 1 THEN "encoded" ELSE "written"]
+    /\ CASE Fault[p] = 0 ->
+              /\ stream' = stream \o Head(chunks[p])
+              /\ chunks' = [chunks EXCEPT ![p] = Tail(@)]
+              /\ pc' = [pc EXCEPT ![p] = IF Len(chunks[p]) > 1 THEN "encoded" ELSE "written"]
+              /\ ret' = [ret EXCEPT ![p] = IF Len(chunks[p]) > 1 THEN @ ELSE "ok"]
+              /\ UNCHANGED encErr
+         [] Fault[p] \in {1, 2} ->      \* Encode returns the error; the encoder remembers it
+              /\ ret' = [ret EXCEPT ![p] = "error"]
+              /\ encErr' = TRUE
+              /\ pc' = [pc EXCEPT ![p] = "written"]
+              /\ UNCHANGED <<stream, chunks>>
+         [] OTHER ->                    \* the panic unwinds Handle: only deferred calls still run
+              /\ ret' = [ret EXCEPT ![p] = "panic"]
+              /\ pc' = [pc EXCEPT ![p] = IF DeferUnlock THEN "written" ELSE "unlocked"]
+              /\ UNCHANGED <<stream, chunks, encErr>>
     /\ UNCHANGED <<buf, g, msg, enc, free, created, hb, tb, arr, blen, large, lock>>
 
 Unlock(p) ==
     /\ pc[p] = "written"
     /\ lock' = IF lock = p THEN 0 ELSE lock
     /\ pc' = [pc EXCEPT ![p] = "unlocked"]
-    /\ UNCHANGED <<buf, g, msg, enc, chunks, free, created, hb, tb, arr, blen, large, inWrite, stream>>
+    /\ UNCHANGED <<buf, g, msg, enc, chunks, free, created, hb, tb, arr, blen, large, inWrite, stream, ret, encErr>>
 
 PoolPut(p) ==
     /\ pc[p] = "unlocked"
@@ -174,7 +215,7 @@ PoolPut(p) ==
          THEN free' = free \cup {buf[p]} /\ buf' = [buf EXCEPT ![p] = 0]
          ELSE UNCHANGED <<free, buf>>
     /\ pc' = [pc EXCEPT ![p] = "done"]
-    /\ UNCHANGED <<g, msg, enc, chunks, created, hb, tb, arr, blen, large, lock, inWrite, stream>>
+    /\ UNCHANGED <<g, msg, enc, chunks, created, hb, tb, arr, blen, large, lock, inWrite, stream, ret, encErr>>
 
 Step(p) == \/ PoolGet(p) \/ Reset(p) \/ Valuer(p) \/ Render(p) \/ Lock(p) \/ Encode(p)
            \/ WriteBegin(p) \/ WriteEnd(p) \/ Unlock(p) \/ PoolPut(p)
@@ -196,7 +237,7 @@ Rest(s) ==
     ELSE LET i == CHOOSE i \in 1..Len(s) : s[i] = NL /\ \A j \in 1..(i - 1) : s[j] # NL
          IN Rest(SubSeq(s, i + 1, Len(s)))
 
-Wrote(p) == pc[p] \in {"written", "unlocked", "done"}
+Wrote(p) == pc[p] \in {"written", "unlocked", "done"} /\ ret[p] = "ok"
 LineCount(p) == Cardinality({i \in 1..Len(LinesOf(stream)) : LinesOf(stream)[i] = Text(p)})
 
 TypeOK ==
@@ -225,7 +266,20 @@ NoTornLine == SingleWrite => Rest(stream) = <<>>
 (* One line per record: none before its Write finished, exactly one afterwards. *)
 OneLinePerRecord == \A p \in Procs : LineCount(p) = (IF Wrote(p) THEN 1 ELSE 0)
 
-EveryRecordWritten == AllDone => \A p \in Procs : LineCount(p) = 1
+(* Every record the writer did not itself refuse has its line, whatever        *)
+(* happened to the others; Handle reports what happened to its own record.     *)
+EveryRecordWritten == AllDone => \A p \in Procs : LineCount(p) = (IF Fault[p] = 0 THEN 1 ELSE 0)
+Returns == \A p \in Procs : pc[p] = "done" =>
+    ret[p] = (CASE Fault[p] = 0 -> "ok" [] Fault[p] \in {1, 2} -> "error" [] OTHER -> "panic")
+(* What any implementation owes after a Write error: a call either wrote its  *)
+(* line and returned nil or returned an error and wrote nothing; an old error  *)
+(* only comes back after the writer did fail.                                  *)
+ReturnsWeak == \A p \in Procs : pc[p] = "done" =>
+    ret[p] \in (CASE Fault[p] = 0 -> {"ok", "stale"} [] Fault[p] \in {1, 2} -> {"error", "stale"} [] OTHER -> {"panic", "stale"})
+LinesMatchReturns == AllDone => \A p \in Procs : LineCount(p) = (IF ret[p] = "ok" THEN 1 ELSE 0)
+StaleOnlyAfterError == \A p \in Procs : ret[p] = "stale" => \E q \in Procs : ret[q] = "error"
+(* Afterwards the tree is as usable as before: mutex free, every item back. *)
+CleanAtEnd == AllDone => (lock = 0 /\ free = created /\ inWrite = {})
 
 (* Every call returns. *)
 Termination == <>AllDone
